@@ -1,9 +1,15 @@
 #!/bin/bash
-# seedbatch.sh ID...   evaluate changes A and B of each id (scratch copies, VERIF_REPO), store results
+# seedbatch.sh [-r ROUND] ID...   evaluate changes A and B of each id (scratch copies, VERIF_REPO), store results
+# ROUND 1 (default) reads /tmp/seed/out, ROUND 2 reads /tmp/seed2/out and stores results as <ID>r2<X>
+ROUND=1
+if [ "$1" = "-r" ]; then ROUND="$2"; shift 2; fi
+SRC=/tmp/seed/out; SUF=""
+if [ "$ROUND" != 1 ]; then SRC=/tmp/seed$ROUND/out; SUF="r$ROUND"; fi
 for id in "$@"; do for x in A B; do
-  [ -f /tmp/seed/out/$id/patch$x.diff ] || { echo "$id$x: no patch"; continue; }
-  python3 /verif/tools/seedcheck.py $id $x > /verif/seeded/results/$id$x.json 2>&1
-  python3 - "$id$x" <<'PY'
+  [ -f $SRC/$id/patch$x.diff ] || { echo "$id$x: no patch"; continue; }
+  key="$id$SUF$x"
+  python3 /verif/tools/seedcheck.py $id $x --src $SRC/$id > /verif/seeded/results/$key.json 2>&1
+  python3 - "$key" <<'PY'
 import json,sys
 k=sys.argv[1]
 try:
